@@ -62,7 +62,7 @@ func (m *machine) settle() {
 					cands = append(cands, t)
 				}
 			}
-			k := m.choose(len(cands), "settle")
+			k := m.chooseRec(len(cands), "settle")
 			other = cands[k]
 		}
 		m.transfer(other)
